@@ -94,21 +94,50 @@ def scenario(w):
         w.probe('fork_multiworker')
 
     # ---- collect member observations -------------------------------------------------------
-    members = []   # per member batch: list of dict(inputs=[...], outs=[...], result, args)
+    # A member is one _sift_with_noise call made underneath the top-level call, in whatever process and
+    # however the implementation packs members into pool jobs; members are grouped per pool batch (one
+    # batch per IMF for the complete ensemble).  Fallback when no such call is seen: one member per job.
+    top = [r for r in w.stage_trace if r['parent'] is None and r['stage'] == variant]
+    swn_recs = [r for r in w.stage_trace if r['stage'] == '_sift_with_noise']
+    kids = {}
+    for r in w.stage_trace:
+        if r['parent'] is not None:
+            kids.setdefault(r['parent'], []).append(r)
+    members = []   # per member batch: list of dict(inputs=[...], outs=[...], result, ...)
     ragged = False
-    for b in member_batches:
-        ms = []
-        for ti in range(b['n']):
-            rec = b['tasks'][ti]
-            if rec is None:
-                continue
-            inner = [r for r in C.tasks_stage_records(w, b['id'], ti, 'sift')
-                     if r['parent'] is None or w.stage_trace[r['parent']]['stage'] != 'sift']
-            swn = C.tasks_stage_records(w, b['id'], ti, '_sift_with_noise')
-            ms.append({'index': ti, 'ok': rec['ok'], 'result': rec['result'], 'worker': rec['worker'],
-                       'inputs': [r['x'] for r in inner], 'outs': [r.get('out') for r in inner],
-                       'Xarg': (swn[0]['bound'] or {}).get('X') if swn else None})
-        members.append(ms)
+    worker_of = {}
+    for b in w.batches:
+        for ti, rec in enumerate(b['tasks']):
+            if rec is not None:
+                worker_of[(b['id'], ti)] = rec['worker']
+    if swn_recs:
+        groups = {}
+        for r in swn_recs:
+            groups.setdefault(r['task'][0] if r['task'] is not None else -1, []).append(r)
+        for gid in sorted(groups):
+            ms = []
+            for r in groups[gid]:
+                inner = [k for k in kids.get(r['id'], []) if k['stage'] == 'sift']
+                ok = 'out' in r
+                ms.append({'index': len(ms), 'ok': ok, 'result': r.get('out') if ok else r.get('exc'),
+                           'worker': worker_of.get(r['task'], 0) if r['task'] is not None else 0,
+                           'inputs': [k['x'] for k in inner], 'outs': [k.get('out') for k in inner],
+                           'Xarg': (r['bound'] or {}).get('X')})
+            members.append(ms)
+    else:
+        w.probe('members_from_pool_jobs')
+        for b in member_batches:
+            ms = []
+            for ti in range(b['n']):
+                rec = b['tasks'][ti]
+                if rec is None:
+                    continue
+                inner = [r for r in C.tasks_stage_records(w, b['id'], ti, 'sift')
+                         if r['parent'] is None or w.stage_trace[r['parent']]['stage'] != 'sift']
+                ms.append({'index': ti, 'ok': rec['ok'], 'result': rec['result'], 'worker': rec['worker'],
+                           'inputs': [r['x'] for r in inner], 'outs': [r.get('out') for r in inner], 'Xarg': None})
+            members.append(ms)
+    for ms in members:
         shapes = set()
         for m in ms:
             if m['ok'] and isinstance(m['result'], np.ndarray):
@@ -138,15 +167,15 @@ def scenario(w):
     if ragged:
         w.probe('ragged_members_no_raise')
         raise W.ExcludedRun('ragged ensemble members')
-    if not member_batches or not members[0]:
-        raise W.HarnessError('no member jobs observed (vacuity guard)')
+    if not members or not members[0]:
+        raise W.HarnessError('no ensemble members observed (vacuity guard)')
 
     imf = out if variant == 'ensemble_sift' else out[0]
 
     # ---- member count --------------------------------------------------------------------
-    for b in member_batches:
-        if b['n'] != nens:
-            w.violation('member-count', variant, '%s ran %d member jobs for nensembles=%d' % (variant, b['n'], nens))
+    for ms in members:
+        if len(ms) != nens:
+            w.violation('member-count', variant, '%s decomposed %d ensemble members for nensembles=%d' % (variant, len(ms), nens))
             return
 
     # ---- 1. distinct, uncorrelated realisations --------------------------------------------
